@@ -23,7 +23,14 @@ var registry = map[string]CheckFunc{}
 
 func register(id string, f CheckFunc) { registry[id] = f }
 
-func Lookup(id string) CheckFunc { return registry[id] }
+func Lookup(id string) CheckFunc {
+	f := registry[id]
+	if f == nil {
+		return nil
+	}
+	// the call index (and with it the feature-helper summaries astx reads facts with) first
+	return func(c *core.Ctx) { index(c); f(c) }
+}
 
 func Properties() []string {
 	var out []string
@@ -63,6 +70,7 @@ const (
 func index(c *core.Ctx) *astx.Index {
 	return c.Cache("index", func() any {
 		ix := astx.BuildIndex(c.Prog())
+		astx.RegisterFeatureHelpers(ix)
 		c.Stats["call_sites_indexed"] = len(ix.Sites)
 		c.Stats["functions_indexed"] = len(ix.Decls)
 		return ix
